@@ -1091,8 +1091,12 @@ class TT():
             torchtt.TT/torch.tensor: the result.
         """
 
+        if isinstance(index, bool):
+            raise InvalidArguments('Invalid index.')
         if index != None and isinstance(index, int):
             index = [index]
+        if isinstance(index, list) and (len(set(index)) != len(index) or any(isinstance(i, bool) for i in index)):
+            raise InvalidArguments('Invalid index.')
         if not isinstance(index, list) and index != None:
             raise InvalidArguments('Invalid index.')
 
